@@ -10,6 +10,9 @@ import (
 	"net/http"
 	"strconv"
 	"strings"
+	"time"
+
+	"github.com/johannesboyne/gofakes3"
 )
 
 func init() { runners["c01"] = runC01 }
@@ -158,6 +161,46 @@ func (s *Sess) heldRead(b, k string, next []byte) {
 	s.Get(b, k, "")
 }
 
+// recycledBucketPut: an upload that is acknowledged is there, also when its bucket was deleted and
+// created again while the body was still on its way (a second client recycling an empty bucket)
+func (s *Sess) recycledBucketPut(body []byte) {
+	if s.st.Ext != nil || isSingle(s.kind) {
+		return
+	}
+	rb := "recycled"
+	if r := do(s.h, Req{Method: "PUT", Path: "/" + rb}); r.Status != 200 {
+		return
+	}
+	gr := &gatedReader{data: append([]byte{}, body...), entered: make(chan struct{}), release: make(chan struct{})}
+	done := make(chan Resp, 1)
+	go func() {
+		done <- do(s.h, Req{Method: "PUT", Path: "/" + rb + "/first", Reader: gr, Header: [][2]string{{"Content-Length", strconv.Itoa(len(body))}}})
+	}()
+	entered := waitOr(gr.entered, 5*time.Second)
+	var d, c Resp
+	if entered {
+		d = do(s.h, Req{Method: "DELETE", Path: "/" + rb})
+		c = do(s.h, Req{Method: "PUT", Path: "/" + rb})
+	}
+	close(gr.release)
+	var r Resp
+	select {
+	case r = <-done:
+	case <-time.After(10 * time.Second):
+		emit(s.prop, "HANG", hs(s.kind+": an upload whose bucket was recycled while its body arrived never completed"))
+		return
+	}
+	g := do(s.h, Req{Method: "GET", Path: "/" + rb + "/first"})
+	msg := fmt.Sprintf("%s: PUT %s/first with a slow body of %d bytes; meanwhile DELETE bucket (%d) and PUT bucket (%d); the upload answers %d; GET answers %d with %d bytes", s.kind, rb, len(body), d.Status, c.Status, r.Status, g.Status, len(g.Body))
+	if r.Status != 200 || (g.Status == 200 && bytes.Equal(g.Body, body)) {
+		emit(s.prop, "GOOD", hs(msg))
+	} else {
+		emit(s.prop, "BAD", hs("S:acknowledged-upload-not-readable "+msg))
+	}
+	do(s.h, Req{Method: "DELETE", Path: "/" + rb + "/first"})
+	do(s.h, Req{Method: "DELETE", Path: "/" + rb})
+}
+
 func runC01(tier string, seed uint64) {
 	rng := NewRng(seed)
 	sizes := []int{0, 1, 2, 63, 64, 65, 4095, 4096, 4097, 32767, 32768, 32769}
@@ -268,6 +311,16 @@ func runC01(tier string, seed uint64) {
 				// (the fs backends refuse an empty path segment)
 				groups = append(groups, []string{"lead", "/lead", "//lead"}, []string{"in/ner", "in//ner", "/in/ner"})
 			}
+			pathStyle := s.h
+			if noInt && s.st.Ext == nil {
+				// every second store addresses its twins virtual-host style: the key is what follows the
+				// bucket's host, byte for byte, exactly as it is what follows "/<bucket>/" in path style
+				hopt := gofakes3.WithHostBucketBase("s3.example.com")
+				if kind == "bolt" || kind == "fsdir" {
+					hopt = gofakes3.WithHostBucket(true)
+				}
+				s.h = hostStyle{inner: newServer(s.st.Backend, hopt, gofakes3.WithIntegrityCheck(false)), base: "s3.example.com"}
+			}
 			for gi, grp := range groups {
 				for ti, k := range grp {
 					s.Put(b, k, []byte(fmt.Sprintf("twin-%d-%d-%s", gi, ti, k)), []KV{{"X-Amz-Meta-Twin", fmt.Sprintf("%d-%d", gi, ti)}, {"Content-Type", fmt.Sprintf("text/x-twin%d", ti)}})
@@ -283,6 +336,8 @@ func runC01(tier string, seed uint64) {
 				}
 				nontrivial(fmt.Sprint(kind, noInt, "twins", gi))
 			}
+			s.h = pathStyle
+			s.recycledBucketPut(rng.Bytes(3000))
 			// uploads through the Go API from a buffer that is reused afterwards
 			s.apiPutReusedBuffer(b, "pooled/1", []byte("first use of the pooled buffer"), []byte("SECOND USE OF THE POOLED BUFFER!!"))
 			s.apiPutReusedBuffer(b, "pooled/2", rng.Bytes(5000), rng.Bytes(5000))
